@@ -5,9 +5,12 @@ PID = "C01"
 
 
 def check(tier, seed):
-    return G.generic_check(PID, "exploration", tier, seed, coq=False,
-        rule=RULE + "; compared here: GenerateLegalMoves as a sorted list of 16-bit codes (missing / extra / repeated moves all show) and the engine's perft counts (batch and on-demand) for depth 2-3",
-        streams=[pos_stream("legal_moves_vs_spec", ["legal-move-list", "perft"])])
+    return G.generic_check(PID, "proof", tier, seed, coq=True,
+        rule="obligations: theorems of coq/properties/C01.v (MovegenImpl generates a duplicate-free permutation of Rules.pseudo / Rules.legal for every legal position; perft_exact for every depth); correspondence: batch pseudo-legal lists (every mode x evasion x UsePromNonQuiet), HasLegalMove and on-demand drains of the real generator vs MovegenImpl inside Coq (c01-cases); " + RULE + "; compared here: GenerateLegalMoves as a sorted list of 16-bit codes (missing / extra / repeated moves all show) and the engine's perft counts (batch and on-demand) for depth 2-3",
+        streams=[dict(name="movegen_model_vs_engine", kind="coqcases", shards=lambda t: 2 if t == "quick" else 16,
+                      args=lambda t, s, sh, path: ["c01-cases", 50 if t == "quick" else 300, s * 1000 + 800 + sh, path],
+                      ok_marker="M = ([], [], [])", coq_timeout=3000),
+                 pos_stream("legal_moves_vs_spec", ["legal-move-list", "perft"])])
 
 
 def replay(path):
